@@ -3,8 +3,8 @@ CONSTANTS
   MaxBlocks = 2
   MaxReqs = 2
   Templates = {"o23", "ret", "jmp"}
-  PatchKinds = {"plain2", "loop", "ret", "jmpsym", "callsym"}
-  FnLayouts = {"none", "one", "split"}
+  PatchKinds = {"plain2", "loop", "ret"}
+  FnLayouts = {"none", "one"}
   EndSyms = {TRUE, FALSE}
   NoSyms = {FALSE}
   AnnModes = {"none"}
